@@ -55,13 +55,13 @@ PROPS = {
         "claimed": True,
         "title": "Send hands over exactly the requested amount, fees included when asked",
         "lean": ["Gonuts.Props.C18", "Gonuts.Tie.Select", "Gonuts.Tie.Consts"],
-        "streams": ["arith", "select"],
-        "thorough_shards": {"arith": 1, "select": 2},
+        "streams": ["arith", "select", "wallet-hist"],
+        "thorough_shards": {"arith": 1, "select": 2, "wallet-hist": 2},
         "level": "proof",
         "technique": "Lean 4 theorems over an executable UInt64 model of the wallet's coin selection / fee / split code (Model.Select, Model.Amount; every multiset, amount, ppk and every tie-breaking of Go's unstable sort); the model is tied to /repo statically (Tie.Select: go/printer text of every mirrored function and the swapToSend amount statements, by rfl) and differentially (stream select: real selectProofsToSend / selectProofsForAmount / feesForProofs / feesForCount / splitWalletTarget / calculateBlankOutputs / AmountSplit through verif-tagged hooks vs the Lean driver, blind and by oracle replay of Go's tie-breaking) plus model-free monitors",
         "design_ref": "DESIGN.md §4.5, §5 C18, §6 K6",
         "text": "Pure part of C18. Proved for all inputs at uint64 semantics: AmountSplit sums to its input and is strictly ascending powers of two; feesForCount/feesForProofs/TransactionFees = ceil(sum ppk/1000) (wrap case stated); a successful selection is a sub-multiset of the holdings worth >= amount + fee(selected) (select_sound, no-wrap hypotheses explicit, wrap counterexample given); the offline path hands over exactly amount + fee(those proofs) (send_exact_offline); the swap path without fees hands over exactly amount (send_exact_swap_nofee); selectProofsToSend never refuses an amount that holdings minus the fee of spending every proof cover, through the wrapping remainingAmount subtraction, every ppk (send_succeeds_toSend), hence Send cannot fail for a wallet without inactive-keyset proofs (send_succeeds_no_inactive). FALSE on the code as it is, each with a decide-checked witness, a partial theorem under the exact extra hypothesis, and a replay against the real code on every run: send_exact_fee (K6: the fee estimate is itself split into popcount(fee) proofs) and send_succeeds with inactive-keyset proofs (inner selection error dropped together with every inactive proof; fee rounded up once per part).",
-        "note": "The end-to-end clause (recipient nets the amount after redeeming at a real mint; proofs unspent, distinct, removed from the balance) is decided by the send stream / C17 wallet model, not here. calculateBlankOutputs is compared exactly only where its float evaluation is provably the integer function (x < 2^48 or float64(x) a power of two); above, Go's math.Log2 rounds down to the integer for x slightly above 2^k (k >= 49) and returns one less than ceil(log2 x) - irrelevant for real fee reserves.",
+        "note": "The end-to-end clause is checked on the real wallet against a real in-process mint by the model-free sendMonitor of stream wallet-hist (every successful Send of random histories at 0 / 100 / 1000 ppk, with and without includeFees, across rotations: the proofs handed over are worth exactly amount, resp. amount + the input fee the mint charges for those proofs); that the proofs are unspent, distinct and leave the balance is C17's monitors in the same stream. K6 shows there as C18/send-e2e/handed-over-below/fees=true/ppk>=1000 (known). calculateBlankOutputs is compared exactly only where its float evaluation is provably the integer function (x < 2^48 or float64(x) a power of two); above, Go's math.Log2 rounds down to the integer for x slightly above 2^k (k >= 49) and returns one less than ceil(log2 x) - irrelevant for real fee reserves.",
         "assumptions": COMMON_ASSUME + [
             "Go's sort.Slice is modelled as an arbitrary pair of functions returning a permutation of their input (it is a deterministic function of the sequence of amounts); theorems hold for all such functions; the driver uses a stable sort and, for replay, a sorter that breaks ties in the order Go picked",
             "uint/uint64 are 64-bit (amd64); math.Pow(2, i) is exact for i < 60",
@@ -302,8 +302,8 @@ mint_prop("C05", "Melt inputs follow the Lightning outcome: spent iff paid, rele
     "PROVED for the model, every melt that passed validation, every pay answer a0, every status answer a1 and every LIST of later poll answers (no length bound): the final quote state is the closed table meltOutcome a0 a1 / pollOutcome a (melt_table, poll_table: PAID iff a definitive success, UNPAID iff a definitive failure or not-found on the in-melt check, PENDING on every ambiguous answer); the inputs are SPENT with the preimage (paid), still LOCKED (pending) or RELEASED (unpaid), nothing else (melt_follows_outcome, tail_inputs, melt_internal); a poll adopts succ/failed in the same call and changes nothing otherwise (poll_follows_outcome, poll_inputs); the verdict after any list of polls is decided by the first definitive answer (resolve_first_definitive, resolve_all_ambiguous, resolve_final).")
 mint_prop("C06", "Rejected or malformed requests change nothing and never crash a handler", ["Gonuts.Props.C06"],
     "PROVED for the model, every request content: a refused swap leaves tables and Lightning state untouched (swap_reject_noop); a refused melt likewise, except the failed backend lookup of an internal settlement after which spent is unchanged and no input is locked (melt_reject_noop, F15); a refused MintTokens leaves the tables exactly as its leading quote-state check left them — which changes at most that quote UNPAID->PAID when the invoice is settled (mint_reject_noop with quote ids unique in every reachable state: mintQ_nodup_db; quoteState_only_unpaid_to_paid; F4); refused mint-/melt-quote requests and restores write nothing.",
-    "No-panic is NOT a theorem: the model has no panic outcome after F3; panics of the Go are caught by the recover()-based monitors of mint-seq / mint-mon and of stream wire-malformed (about 5,300 structurally and byte-level mutated HTTP requests per run over 5 mint states: no panic, no state change on refusal, predicted decode class and detail text).",
-    streams=("mint-seq", "mint-mon", "wire-malformed"))
+    "No-panic is NOT a theorem: the model has no panic outcome after F3; panics of the Go are caught by the recover()-based monitors of mint-seq / mint-mon and of stream wire-malformed (about 5,300 structurally and byte-level mutated HTTP requests per run over 5 mint states: no panic, no state change on refusal, predicted decode class and detail text). Stream mint-crash (fault mode) applies the statement literally to requests that fail because a STORAGE call fails at each position: 29 such positions leave earlier writes in place on the unchanged tree (known findings C06/fault/*, the same defects as C07's); any other position is a VIOLATION.",
+    streams=("mint-seq", "mint-mon", "wire-malformed", "mint-crash"), shards={"mint-crash": 4}, qshards={"mint-crash": 3})
 mint_prop("C07", "Mint crash consistency: a crash at any point never inflates or strands value", ["Gonuts.Props.C07", "Gonuts.Props.C01"],
     "PROVED for the model, for EVERY event sequence (any operation, any interruption point, any number of kills, injected storage errors and requests in flight, any inputs): durability — a SPENT row, a stored signature, a keyset's index and fee, a quote's terms are never lost (durable_spent, durable_signature, durable_keyset, durable_mint_quote, durable_melt_quote); a kill changes no table and the restarted cache is a function of storage (kill_keeps_tables, restart_cache_from_storage); the unique keys of the spent/pending/signature tables hold at every point (unique_keys_always); a spent secret is refused by every later request (spent_refused_after_restart). FALSE of the code, with kernel-checked witnesses: atomicity (swap_atomic_full_false: killed between SaveProofs and SaveBlindSignatures the inputs are SPENT and nothing is restorable, swap_stranded_for_good; mint_atomic_full_false), safety (melt_safety_full_false: killed between RemovePendingProofs and SaveProofs the invoice is paid and the inputs spendable), start-up (rotate_restart_full_false: no active keyset, LoadMint panics). The complete interruption tables of the canonical swap/mint/melt/rotation (swap_table, mint_table, melt_table, rotate_table) are decide-checked TESTS of the model, compared point by point with the real mint by stream mint-crash.",
     "Stream mint-crash: every listed operation x every interruption point k x {kill+restart, storage error at call k then restart} against the real mint on real SQLite (goroutine parked for ever at the Gate = process kill; LoadMint on the same directory), followed by state check, poll, retry, restore and re-spend; the model executes the same prefix, kill and follow-up; verdicts (unsafe / lost / stranded / ok) are computed model-free from storage and the backend's ledger. 52 interruption points violate the property on the unchanged tree (known findings C07/crash/*, C07/fault/*, one signature per (mode, operation, call, verdict)); any other point, or another verdict at a listed point, is a VIOLATION. The model's kill drops continuations between calls; torn writes inside one SQLite transaction and fsync behaviour are NOT modelled (SQLite's own atomicity is trusted).",
